@@ -4,7 +4,9 @@
 #include "gen_types.h"
 struct MainLoop { vstr m_htmlPath; };
 struct oss { int dummy; };
-#define vstr_find_lit(s, lit) vstr_find_cstr(s, lit, 0)
+static inline size_t vstr_find_lit2(const vstr* s, const char* lit) { return vstr_find_cstr(s, lit, 0); }
+#define VF_SEL(a, b, name, ...) name
+#define vstr_find_lit(s, ...) VF_SEL(__VA_ARGS__, vstr_find_cstr, vstr_find_lit2, 0)(s, __VA_ARGS__)      /* find(str) and find(str, pos) */
 static inline size_t vstr_find_last_char(const vstr* s, char c) { size_t r = VSTR_NPOS; for (size_t i = 0; i < VSTR_CAP; i++) { if (i < s->n && s->d[i] == c) r = i; } return r; }
 static inline vstr vstr_substr_from1(const vstr* s, size_t pos) { return vstr_substr(s, pos, VSTR_NPOS); }
 static inline vstr vstr_cat(const vstr* a, const vstr* b) { vstr r = *a; vstr_append(&r, b); return r; }
